@@ -212,6 +212,88 @@ def check_global(events, ts, via, acc):
     return rows
 
 
+def check_interfered(kind, ts, acc):
+    """Another process writes the driven variable between two events, or
+    the compartment that holds the timeline is moved after an event has
+    fired: every event still fires exactly once.
+
+    same-value : events (1, x=5) and (4, x=5); the holder sets x=0 in
+                 between; the second event sets 5 again
+    moved      : one event (1, x=5); a step moves the compartment (with the
+                 timeline, its clock and x) at t=3; the holder sets x=0 at
+                 t=4: x stays 0 (the event does not fire again)
+    """
+    case = {'events': kind, 'ts': ts, 'via': f'interfered:{kind}'}
+    acc.case(key=('interfered', kind, ts), outcome='interfered')
+    V = lambda rule, fp, msg: acc.violate(  # noqa
+        fw.violation(rule, fp, msg, case))
+    timeline = [(1, {('env', 'x'): 5})]
+    if kind == 'same-value':
+        timeline.append((4, {('env', 'x'): 5}))
+    holder = probes.Probe({
+        'pid': 'holder', 'ts': 1, 'log_states': False,
+        'schema': {'env': {'x': {'_default': -1, '_updater': 'accumulate',
+                                 '_emit': True}}},
+        'update': {'$n': {3: {'env': {'x': {'_value': 0,
+                                            '_updater': 'set'}}}},
+                   '$else': {}}})
+    processes = {'A': {'c': {
+        'holder': holder,
+        'timeline': TimelineProcess({'timeline': timeline,
+                                     'time_step': ts})}}}
+    topology = {'A': {'c': {
+        'holder': {'env': ('env',)},
+        'timeline': {'global': ('global',), 'env': ('env',)}}}}
+    kw = {}
+    if kind == 'moved':
+        mover = probes.ProbeStep({
+            'pid': 'mover', 'log_states': False,
+            'schema': {'A': {'*': {}}, 'B': {'*': {}}},
+            'update': {'$n': {3: {'A': {'_move': [{
+                'source': ('c',), 'target': 'B'}]}}}, '$else': {}}})
+        kw = {'steps': {'mover': mover}, 'flow': {'mover': []}}
+        topology['mover'] = {'A': ('A',), 'B': ('B',)}
+    try:
+        eng = probes.MonitoredEngine(
+            processes=processes, topology=topology,
+            emitter={'type': 'vmc_probe'}, display_info=False, **kw)
+        eng.update(8)
+    except Exception as e:  # noqa
+        V('C19.crash', f'interfered:{type(e).__name__}:{str(e)[:40]}',
+          f'unexpected {e!r}')
+        return
+    xs = {}
+    for r in eng.emitter.records:
+        if r['table'] != 'history':
+            continue
+        snap = r['snapshot']
+        comp = (snap.get('A') or {}).get('c') or \
+            (snap.get('B') or {}).get('c') or {}
+        xs[r['data']['time']] = comp.get('env', {}).get('x')
+    # the event at time 1 fires at the first tick at which the clock has
+    # reached 1; the holder's set (invocation 3) lands at t=4; a second
+    # event (time 4) fires at the first tick with clock >= 4
+    first = min(t for t in xs if t - ts >= 1 and (t / ts) == int(t / ts))
+    want = {}
+    for t in sorted(xs):
+        v = -1
+        if t >= first:
+            v = 5
+        if t >= 4:
+            v = 0
+        if kind == 'same-value':
+            second = min(u for u in xs if u - ts >= 4 and
+                         (u / ts) == int(u / ts))
+            if t >= second:
+                v = 5
+        want[t] = v
+    if xs != want:
+        bad = next(t for t in sorted(xs) if xs[t] != want[t])
+        V('C19.trajectory', f'interfered-{kind}',
+          f'{kind}, timeline timestep {ts}: x over time {xs}, expected '
+          f'{want} (first difference at t={bad})')
+
+
 def check_container(events, ts, mode, acc):
     """Events whose values are lists / dictionaries: a variable holds the
     value of the LAST due event that names it (its updater is 'set'), not
@@ -437,6 +519,11 @@ def run_job(job, acc):
             acc.case(key=('float', job[1], ts), outcome='float',
                      nontrivial=True)
         return
+    if job[0] == 'interfered':
+        # (timestep 1 only: every write lands in a batch of its own, and
+        # the moved processes are idle when the mover step runs)
+        check_interfered(job[1], 1, acc)
+        return
     if job[0] == 'global':
         for ts, via in itertools.product((1, 2, 3),
                                          ('direct', 'add_timeline')):
@@ -470,6 +557,7 @@ def run(ctx):
                     if len(e) <= 3] +
                    [('global', e) for e in event_lists(ctx)
                     if len(e) <= 3 and any(ev[1] == 'y' for ev in e)] +
+                   [('interfered', k) for k in ('same-value', 'moved')] +
                    [('float', e) for e in float_event_lists(ctx)] +
                    [('scripted', e) for e in scripted_event_lists(ctx)])
 
@@ -479,6 +567,8 @@ def replay(case):
     if str(case['via']).startswith('script'):
         check_scripted(tuple(tuple(e) for e in case['events']), case['ts'],
                        int(case['via'][6:]), acc)
+    elif str(case['via']).startswith('interfered:'):
+        check_interfered(case['events'], case['ts'], acc)
     elif str(case['via']).startswith('global:'):
         check_global(tuple(tuple(e) for e in case['events']), case['ts'],
                      case['via'].split(':')[1], acc)
@@ -502,3 +592,6 @@ RULE += (
 
 RULE += (
     ' Global mode: variable y is kept in the store that holds the timeline clock (events name it as (global, y)); event lists of length <= 3 that set y, timesteps 1-3, wired directly and through add_timeline.')
+
+RULE += (
+    ' Interfered worlds: two events give one variable the same value while another process resets it in between (the second event still fires); the compartment that holds the timeline, its clock and the variable is moved after the event has fired (it does not fire again).')
